@@ -9,6 +9,7 @@ import (
 	"fmt"
 	"os"
 	"strconv"
+	"strings"
 	"sync"
 	"testing"
 	"time"
@@ -41,7 +42,7 @@ func TestRace(t *testing.T) {
 			}
 			pairs++
 			fmt.Fprintf(os.Stderr, "C20RACE pair=%s\n", name)
-			w := world.Build()
+			w := world.Build(nil)
 			w.PollInterval = 25 * time.Millisecond // real time here; a too short interval makes the client back off by 5 s
 			for it := 0; it < iters; it++ {
 				var wg sync.WaitGroup
@@ -60,4 +61,33 @@ func TestRace(t *testing.T) {
 		}
 	}
 	fmt.Fprintf(os.Stderr, "C20RACE pairs=%d iters=%d\n", pairs, iters)
+}
+
+// TestCoverAll (C20_COVER=1 only) runs every operation of the alphabet and every
+// behaviour probe once, sequentially; used with -cover to look for alphabet
+// blind spots in the anchored files (the overlay accessors cannot be combined
+// with -cover, this package needs none).
+func TestCoverAll(t *testing.T) {
+	if os.Getenv("C20_COVER") == "" {
+		t.Skip("coverage utility")
+	}
+	world.Install()
+	// no restore of package-level state here: the calls run first, the constructors
+	// with custom endpoints (which move the package defaults, finding A) last
+	var order []*world.Op
+	order = append(order, world.CallOps()...)
+	for i := range world.Ops {
+		if strings.HasPrefix(world.Ops[i].Kind, "ctor") {
+			order = append(order, &world.Ops[i])
+		}
+	}
+	for _, o := range order {
+		w := world.Build(nil)
+		if p := engine.Safe(func() { t.Log(o.Name, o.Run(w)) }); p != "" {
+			t.Log(o.Name, "panic", p)
+		}
+		for _, in := range w.Insts {
+			w.Behaviour(in)
+		}
+	}
 }
